@@ -24,13 +24,15 @@ OUT = os.environ.get("PYVC_OUT", ROOT)
 
 class Unit:
     def __init__(self, uid: str, fn: Callable[[Any], None], setup: Callable | None = None,
-                 max_paths: int = 4000, query_timeout_ms: int = 90000, bounded: str = ""):
+                 max_paths: int = 4000, query_timeout_ms: int = 90000, bounded: str = "",
+                 allow_empty: bool = False):
         self.uid = uid
         self.fn = fn
         self.setup = setup
         self.max_paths = max_paths
         self.query_timeout_ms = query_timeout_ms
         self.bounded = bounded  # non-empty: this unit is a labelled bounded stand-in
+        self.allow_empty = allow_empty  # every path may end before an obligation (e.g. refusal)
 
 
 class UnitTimeout(Exception):
@@ -89,7 +91,7 @@ def _run_unit(unit: Unit) -> dict:
             "functions": ex.functions, "paths": ex.paths, "normal_paths": ex.normal_paths,
             "solver_ms": round(ex.solver_ms, 1), "wall_s": round(time.time() - t0, 2),
             "error": err, "error_kind": kind, "bounded": unit.bounded,
-            "extra": getattr(ex, "extra", None),
+            "extra": getattr(ex, "extra", None), "allow_empty": unit.allow_empty,
             "assumptions": sorted(ex.assumptions)}
 
 
@@ -232,6 +234,14 @@ class Check:
             json.dump(names, open(expected_path, "w"), indent=0)
         if n_ob == 0:
             lines.append(f"CHECKER-ERROR property={self.prop} zero obligations generated")
+            rc = 3
+        # vacuity per unit: a unit that ran to its end without a single obligation decided nothing
+        empty = [r["unit"] for r in results if not r["obligations"] and not r["error"]
+                 and not r.get("allow_empty")]
+        self.extra["units_without_obligations"] = empty[:20]
+        if empty and not os.environ.get("PYVC_ALLOW_EMPTY_UNITS"):
+            lines.append(f"CHECKER-ERROR property={self.prop} {len(empty)} units generated no "
+                         f"obligation (vacuous), e.g. {empty[:3]}")
             rc = 3
         for r in errors:
             first = (r["error"] or "").strip().splitlines()
